@@ -436,7 +436,7 @@ def _main(args, prop, seed):
         if hit:
             print("KNOWN-FINDING: property=%s %s: %s" % (prop, f["id"], f["what"]))
         other = [v for v in out.violations if v["sig"] not in sigs and not known.match(f["sub"], v)]
-        if other:
+        if other and not os.environ.get("WV_SKIP_REPLAYS"):   # (the dev aid tools/mkreplay.py wants the generation)
             print("  violation sig=%s detail=%s" % (other[0]["sig"], other[0]["detail"]))
             path = write_replay(prop, {"sub": f["sub"], "case": f["case"], "violations": other}, seed, args.tier)
             print("VIOLATION property=%s replay=%s" % (prop, path))
